@@ -34,8 +34,10 @@ CurName == IF sm.tok.k \in {"st", "et"} /\ sm.tok.nm[1] < Len(inp)
 TmpName == IF sm.st \in {"scriptdescstart", "scriptdescend"} /\ sm.tmp < Len(inp) THEN LowerSeq(SubSeq(inp, sm.tmp + 1, Len(inp))) ELSE <<>>
 NameClass == IF CurName \in Special THEN CurName ELSE IF TmpName \in Special THEN TmpName ELSE <<>>
 Control == <<sm.st, sm.tt, sm.cdataOK, Cur(sm.tb), Len(sm.tb.ns), sm.tok.k, sm.tok.sc, Len(sm.tok.attrs) > 0,
-             IF sm.last \in Special THEN sm.last ELSE <<>>, NameClass, sm.tmp = 0>>
+             IF sm.last \in Special THEN sm.last ELSE <<>>, NameClass, sm.tmp = 0,
+             \* the text state an end-tag attempt returns to (plain or escaped script data, RCDATA, RAWTEXT)
+             IF sm.st \in {"textlt", "textendtagopen", "textendtagname"} THEN sm.ret ELSE "">>
 View == Control
 
-Emit == PrintT(<<"REPLAY", ToJson([input |-> inp, st |-> sm.st, tt |-> sm.tt, cls |-> NameClass, ns |-> Cur(sm.tb), k |-> sm.tok.k])>>)
+Emit == PrintT(<<"REPLAY", ToJson([input |-> inp, st |-> sm.st, tt |-> sm.tt, cls |-> NameClass, ns |-> Cur(sm.tb), k |-> sm.tok.k, ret |-> sm.ret])>>)
 =============================================================================
